@@ -387,6 +387,11 @@ func checkC17(c *ctx) {
 				return
 			}
 		}
+		// ---------- (C') the public Merge method on one re-opened segment without deletions ----------
+		if bad := publicSingleMerge(c, sb, spec, uint64(len(b))); bad != "" {
+			c.Violation("C17 "+bad+"\nbatch: "+clip(b.Sx().String()), false)
+			return
+		}
 		// after all those failed merges: merges running side by side must each be complete (whatever
 		// the failed ones handed back to shared pools must not be handed out twice)
 		{
@@ -769,6 +774,67 @@ func syncFailures(c *ctx) string {
 			return fmt.Sprintf("Merge to a destination whose final sync fails returned %v but left the path in place\nbatch: %s", merr, clip(b.Sx().String()))
 		}
 		sb.Close()
+	}
+	return ""
+}
+
+// publicSingleMerge: the segment API's Merge (the plugin method, default chunk mode) applied to ONE
+// segment that was persisted and re-opened, nothing deleted - the shape a compaction of a single
+// file has - with the file-size limit at k.  Rule (the property itself): a limit below the output's
+// length must give an error and no file, otherwise success and a file that decodes to the content.
+func publicSingleMerge(c *ctx, sb *zap.SegmentBase, spec sx.V, n uint64) string {
+	seg, ipath, err := zh.PersistOpen(sb)
+	must(err)
+	defer os.Remove(ipath)
+	defer seg.Close()
+	e := &segEnt{seg: seg, spec: spec, n: n, prov: "opened"}
+	for _, emptyBM := range []bool{false, true} {
+		mc := &mergeCase{ins: []*segEnt{e}, drops: [][]uint64{nil}, nilBM: []bool{!emptyBM}, mode: zap.DefaultChunkMode}
+		mspec, _ := specMerge(c, mc)
+		path := zh.TmpPath("c17p")
+		_, size, merr := zh.Plugin.Merge([]segment.Segment{seg}, mc.bitmaps(), path, nil, nil)
+		if merr != nil {
+			return "fault-free Merge (plugin method) of one re-opened segment failed: " + merr.Error()
+		}
+		good, _ := os.ReadFile(path)
+		os.Remove(path)
+		if uint64(len(good)) != size {
+			return fmt.Sprintf("fault-free Merge (plugin method) reported size %d but wrote %d bytes", size, len(good))
+		}
+		for _, k := range offsetsToTry(c, len(good), false) {
+			path := zh.TmpPath("c17p")
+			var merr error
+			withFileSizeLimit(uint64(k), func() {
+				func() {
+					defer func() {
+						if r := recover(); r != nil {
+							merr = fmt.Errorf("PANIC %v", r)
+						}
+					}()
+					_, _, merr = zh.Plugin.Merge([]segment.Segment{seg}, mc.bitmaps(), path, nil, nil)
+				}()
+			})
+			c.Case(fmt.Sprintf("public-single-merge-%v-%d", emptyBM, k), k > 0 && k < len(good))
+			c.Count("public_single_merge_faults")
+			bad := ""
+			switch {
+			case merr == nil && k < len(good):
+				bad = "Merge reported success although the destination cannot hold the output"
+			case merr != nil && k >= len(good):
+				bad = "Merge failed (" + merr.Error() + ") although the destination can hold the output"
+			case merr != nil && exists(path):
+				bad = fmt.Sprintf("Merge returned an error (%v) but left a file at the path", merr)
+			case merr == nil:
+				got, _ := os.ReadFile(path)
+				if p := parseMergedAgainst(c, got, mspec, allParts); p != "" {
+					bad = "Merge reported success but the file does not decode to the merged content: " + p
+				}
+			}
+			os.Remove(path)
+			if bad != "" {
+				return fmt.Sprintf("Merge through the segment API's plugin method of ONE persisted and re-opened segment (deletion bitmap: empty=%v, else nil) with the file-size limit at %d of %d bytes\n%s", emptyBM, k, len(good), bad)
+			}
+		}
 	}
 	return ""
 }
